@@ -1033,6 +1033,22 @@ static void janet_thread_chan_cb(JanetEVGenericMessage msg) {
 /* Push a value to a channel, and return 1 if channel should block, zero otherwise.
  * If the push would block, will add to the write_pending queue in the channel.
  * Handles both threaded and unthreaded channels. */
+/* Registrations of fibers that have since moved on (a take that timed out, was canceled, or a select that
+ * completed through another clause) are only discovered when the opposite operation pops them. On a channel
+ * where that operation never comes they would pile up, each keeping its fiber alive, so whoever registers
+ * next drops the stale ones at the head of the queue first. (The fibers of a thread channel's registrations
+ * belong to other threads and cannot be examined.) */
+static void janet_chan_drop_stale(JanetChannel *channel, JanetQueue *pending) {
+    if (janet_chan_is_threaded(channel)) return;
+    JanetChannelPending entry;
+    while (!janet_q_pop(pending, &entry, sizeof(entry))) {
+        if (entry.sched_id == entry.fiber->sched_id) {
+            janet_q_push_head(pending, &entry, sizeof(entry));
+            break;
+        }
+    }
+}
+
 static int janet_channel_push_with_lock(JanetChannel *channel, Janet x, int mode) {
     JanetChannelPending reader;
     int is_empty;
@@ -1070,6 +1086,7 @@ static int janet_channel_push_with_lock(JanetChannel *channel, Janet x, int mode
             pending.fiber = janet_vm.root_fiber,
             pending.sched_id = janet_vm.root_fiber->sched_id,
             pending.mode = mode ? JANET_CP_MODE_CHOICE_WRITE : JANET_CP_MODE_WRITE;
+            janet_chan_drop_stale(channel, &channel->write_pending);
             janet_q_push(&channel->write_pending, &pending, sizeof(pending));
             janet_chan_unlock(channel);
             if (is_threaded) {
@@ -1128,6 +1145,7 @@ static int janet_channel_pop_with_lock(JanetChannel *channel, Janet *item, int i
         pending.fiber = janet_vm.root_fiber,
         pending.sched_id = janet_vm.root_fiber->sched_id;
         pending.mode = is_choice ? JANET_CP_MODE_CHOICE_READ : JANET_CP_MODE_READ;
+        janet_chan_drop_stale(channel, &channel->read_pending);
         janet_q_push(&channel->read_pending, &pending, sizeof(pending));
         janet_chan_unlock(channel);
         if (is_threaded) {
